@@ -5,9 +5,11 @@ package main
 import (
 	"context"
 	"fmt"
+	"io"
 	"os"
 	"sort"
 	"strings"
+	"sync"
 	"time"
 
 	"perkeep.org/pkg/blob"
@@ -136,9 +138,17 @@ func runC06(c *ctx) {
 			c.rep.Notes = append(c.rep.Notes, "open "+kind+": "+err.Error())
 			continue
 		}
-		src := new(test.Fetcher)
-		ix := cw.newIndex(kv, src, true)
-		corp, _ := ix.KeepInMemory()
+		src := &c06src{Fetcher: new(test.Fetcher), hold: map[string]chan struct{}{}, entered: make(chan string, 8)}
+		ix, err := index.New(kv)
+		if err != nil {
+			panic(err)
+		}
+		ix.KeyFetcher = new(test.Fetcher) // keys must arrive as blobs
+		ix.InitBlobSource(src)
+		corp, err := ix.KeepInMemory()
+		if err != nil {
+			panic(err)
+		}
 		var refs, pns []blob.Ref
 		for _, b := range cw.blobs {
 			refs = append(refs, b.b.BlobRef())
@@ -151,8 +161,39 @@ func runC06(c *ctx) {
 		for i, id := range order {
 			b := cw.blobs[id-1]
 			src.AddBlob(b.b)
+			// a delete claim that arrived before this blob, its target, is re-indexed in the background once the target is
+			// there: hold that re-indexing at its fetch of the claim and look at the orderings in between (a legitimate
+			// intermediate state - the point is that the lookups after the re-indexing must not be answered from then)
+			var held *wblob
+			for _, j := range order[:i] {
+				if d := cw.blobs[j-1]; d.kind == "delete" && d.idep == b.id {
+					held = d
+				}
+			}
+			var release chan struct{}
+			if held != nil {
+				release = make(chan struct{})
+				src.mu.Lock()
+				src.hold[held.b.BlobRef().String()] = release
+				src.mu.Unlock()
+			}
 			if _, err := ix.ReceiveBlob(ctxb, b.b.BlobRef(), b.b.Reader()); err != nil {
 				c.rep.Notes = append(c.rep.Notes, "ReceiveBlob: "+err.Error())
+			}
+			if held != nil {
+				select {
+				case <-src.entered:
+					ix.RLock()
+					corp.EnumeratePermanodesLastModified(func(camtypes.BlobMeta) bool { return true })
+					corp.EnumeratePermanodesCreated(func(camtypes.BlobMeta) bool { return true }, true)
+					ix.RUnlock()
+					c.count("observation_points", "lookups while a re-indexing is held")
+				case <-time.After(300 * time.Millisecond):
+				}
+				src.mu.Lock()
+				delete(src.hold, held.b.BlobRef().String())
+				src.mu.Unlock()
+				close(release)
 			}
 			ix.VerifAwaitReindex()
 			if b.kind == "delete" {
@@ -203,6 +244,28 @@ func runC06(c *ctx) {
 		kv.Close()
 		c.count("kv", kind)
 	}
+}
+
+// the blob source of the index, able to hold the fetch of one chosen blob
+type c06src struct {
+	*test.Fetcher
+	mu      sync.Mutex
+	hold    map[string]chan struct{}
+	entered chan string
+}
+
+func (s *c06src) Fetch(ctx context.Context, br blob.Ref) (io.ReadCloser, uint32, error) {
+	s.mu.Lock()
+	ch := s.hold[br.String()]
+	s.mu.Unlock()
+	if ch != nil {
+		select {
+		case s.entered <- br.String():
+		default:
+		}
+		<-ch
+	}
+	return s.Fetcher.Fetch(ctx, br)
 }
 
 func mkdirAll(d string) string {
